@@ -2,6 +2,7 @@ package mon
 
 import (
 	"fmt"
+	"sort"
 	"strings"
 
 	"github.com/vektah/gqlparser/v2/ast"
@@ -45,7 +46,7 @@ var c05Alphabet = []gramTok{
 	{"{", ref.GTok{Kind: ref.KPunct, Val: "{"}}, {"}", ref.GTok{Kind: ref.KPunct, Val: "}"}}, {"(", ref.GTok{Kind: ref.KPunct, Val: "("}}, {")", ref.GTok{Kind: ref.KPunct, Val: ")"}},
 	{"[", ref.GTok{Kind: ref.KPunct, Val: "["}}, {"]", ref.GTok{Kind: ref.KPunct, Val: "]"}}, {":", ref.GTok{Kind: ref.KPunct, Val: ":"}}, {"=", ref.GTok{Kind: ref.KPunct, Val: "="}},
 	{"!", ref.GTok{Kind: ref.KPunct, Val: "!"}}, {"$", ref.GTok{Kind: ref.KPunct, Val: "$"}}, {"@", ref.GTok{Kind: ref.KPunct, Val: "@"}}, {"...", ref.GTok{Kind: ref.KPunct, Val: "..."}},
-	{"a", ref.GTok{Kind: ref.KName, Val: "a"}}, {"on", ref.GTok{Kind: ref.KName, Val: "on"}}, {"query", ref.GTok{Kind: ref.KName, Val: "query"}}, {"fragment", ref.GTok{Kind: ref.KName, Val: "fragment"}},
+	{"a", ref.GTok{Kind: ref.KName, Val: "a"}}, {"on", ref.GTok{Kind: ref.KName, Val: "on"}}, {"ON", ref.GTok{Kind: ref.KName, Val: "ON"}}, {"query", ref.GTok{Kind: ref.KName, Val: "query"}}, {"fragment", ref.GTok{Kind: ref.KName, Val: "fragment"}},
 	{"1", ref.GTok{Kind: ref.KInt}}, {`"on"`, ref.GTok{Kind: ref.KString}},
 }
 
@@ -289,6 +290,16 @@ func mutateKeywordString(r *core.Rand, toks []model.Tok) []model.Tok {
 		return mutateTokens(r, toks)
 	}
 	i := idx[r.Intn(len(idx))]
+	if r.Chance(1, 3) {
+		// the same word in another case: a Name like any other, not the keyword
+		t := out[i].Text
+		alt := strings.ToUpper(t)
+		if r.Bool() {
+			alt = strings.ToUpper(t[:1]) + t[1:]
+		}
+		out[i] = model.Tok{Kind: model.TName, Text: alt}
+		return out
+	}
 	txt := `"` + out[i].Text + `"`
 	if r.Chance(1, 3) {
 		txt = `"""` + out[i].Text + `"""`
@@ -348,6 +359,50 @@ func c05Check(x *core.Ctx, c *core.Case) {
 		if want := c.Get("canon"); got.Canon() != want {
 			x.Violate("tree-differs("+firstDiffLine(want, got.Canon())+")", got.Canon(), want)
 			return
+		}
+		// what was written as a block string is a block-string value in the tree, what was written in quotes is a quoted
+		// one: the kinds of the string tokens of the text, in order, are the kinds of the tree's string values, in order
+		if rr := ref.LexFrame(src); rr.Abstain == "" && !rr.Failed {
+			var written []string
+			for _, t := range rr.Toks {
+				switch t.Kind {
+				case ref.KBlock:
+					written = append(written, "block")
+				case ref.KString:
+					written = append(written, "quoted")
+				}
+			}
+			type sv struct {
+				at   int
+				kind string
+			}
+			var inTree []sv
+			var val func(v *ast.Value)
+			val = func(v *ast.Value) {
+				if v == nil {
+					return
+				}
+				switch v.Kind {
+				case ast.BlockValue:
+					inTree = append(inTree, sv{v.Position.Start, "block"})
+				case ast.StringValue:
+					inTree = append(inTree, sv{v.Position.Start, "quoted"})
+				}
+				for _, ch := range v.Children {
+					val(ch.Value)
+				}
+			}
+			walkQueryValues(res.(*ast.QueryDocument), val)
+			sort.Slice(inTree, func(i, j int) bool { return inTree[i].at < inTree[j].at })
+			var kinds []string
+			for _, e := range inTree {
+				kinds = append(kinds, e.kind)
+			}
+			if strings.Join(kinds, ",") != strings.Join(written, ",") {
+				x.Violate("tree-differs(string-kinds)", strings.Join(kinds, ","), "as written: "+strings.Join(written, ","))
+				return
+			}
+			x.Count("string_kind_sequences_compared")
 		}
 		if plain := c.Get("plain"); plain != "" {
 			d2, err := parser.ParseQuery(&ast.Source{Name: "plain.graphql", Input: plain})
@@ -419,4 +474,49 @@ func gramJudgeText(x *core.Ctx, g *ref.Grammar, src string, parse func(string) (
 		x.Violate("impl-accepts/ref-rejects("+reason+")", "parsed", "not derivable: "+reason)
 	}
 	return nil, false
+}
+
+// walkQueryValues calls f for every value written in the document (arguments of fields and directives, variable defaults).
+func walkQueryValues(doc *ast.QueryDocument, f func(v *ast.Value)) {
+	dirs := func(ds ast.DirectiveList) {
+		for _, d := range ds {
+			for _, a := range d.Arguments {
+				f(a.Value)
+			}
+		}
+	}
+	var sels func(ss ast.SelectionSet)
+	sels = func(ss ast.SelectionSet) {
+		for _, sel := range ss {
+			switch s := sel.(type) {
+			case *ast.Field:
+				for _, a := range s.Arguments {
+					f(a.Value)
+				}
+				dirs(s.Directives)
+				sels(s.SelectionSet)
+			case *ast.InlineFragment:
+				dirs(s.Directives)
+				sels(s.SelectionSet)
+			case *ast.FragmentSpread:
+				dirs(s.Directives)
+			}
+		}
+	}
+	vars := func(vs ast.VariableDefinitionList) {
+		for _, v := range vs {
+			f(v.DefaultValue)
+			dirs(v.Directives)
+		}
+	}
+	for _, op := range doc.Operations {
+		vars(op.VariableDefinitions)
+		dirs(op.Directives)
+		sels(op.SelectionSet)
+	}
+	for _, fr := range doc.Fragments {
+		vars(fr.VariableDefinition)
+		dirs(fr.Directives)
+		sels(fr.SelectionSet)
+	}
 }
